@@ -66,3 +66,28 @@ def run(v, tier, replay):
     v.cov["behaviours_replayed_into_impl"] = total
     v.cov["traces_validated_against_impl"] += total
     v.cov["exhaustive"] = True
+
+    # concurrent redemption: recorded from the real server, judged by TLC (Trace_HopLogin)
+    tr = os.path.join(sd, "conc.ndjson")
+    rounds = 120000 if thorough else 30000
+    rc, so, se = lib.run([binp, "conc", tr, str(rounds), str(lib.seed())], timeout=900)
+    if rc != 0:
+        raise lib.Inconclusive("c05 conc driver failed: " + (so + se)[-2000:])
+    events = lib.read_ndjson(tr)
+    r = lib.tlc("Trace_HopLogin", "Trace_HopLogin.cfg", files={"trace.ndjson": "@" + tr}, workers=1, timeout=1800)
+    v.add_tlc("Trace_HopLogin (concurrent redemption batches)", r)
+    if not r.ok:
+        raise lib.Inconclusive("trace not consumed by Trace_HopLogin: kind=%s\n%s" % (r.kind, r.out[-2000:]))
+    v.cov["concurrent_batches"] = len(events)
+    v.cov["traces_validated_against_impl"] += 1
+    v.sample(events[0])
+    for e in events[:2000]:
+        v.case(("batch", e["g"], e["n"], e["ok"]))
+    for m in re.finditer(r'<<"MISMATCH", (\d+)>>', r.out):
+        e = events[int(m.group(1)) - 1]
+        if e["ok"] > (1 if e["g"] > 0 else 0):
+            v.violation("concurrent logins: %d of %d simultaneous logins succeeded on %d unconsumed grant(s) (one login takes all grants of its user and key)" % (e["ok"], e["n"], e["g"]),
+                        "real HopServer, goroutines released together; no sequential order of Login actions explains it", e)
+            break
+        else:
+            v.count("concurrent_batches_with_fewer_successes_than_sequential")
